@@ -76,7 +76,14 @@ S12 = ("{g0} = 1\n\n\ndef outer():\n    {l0} = 10\n\n    def mid({p1}):\n       
        "        return inner() + {u1}\n    return mid(2) + {l0}\n\n\nprint(outer(), {g0})\n")
 S12_HOLES = {"g0": ["a", "b"], "l0": ["a", "b"], "p1": ["c", "b"], "mb": ["pass", "c0 = 5"], "w": ["{l0} = 7", "{l0} += 1"], "u1": ["a", "b"]}
 
-SCHEMAS = {"S12": (S12, S12_HOLES), "S11": (S11, S11_HOLES), "S10": (S10, S10_HOLES), "S9": (S9, S9_HOLES), "S8": (S8, S8_HOLES), "S6": (S6, S6_HOLES), "S7": (S7, S7_HOLES), "S1": (S1, S1_HOLES), "S2": (S2, S2_HOLES), "S3A": (S3A, S3A_HOLES), "S3B": (S3B, S3B_HOLES), "S3C": (S3C, S3C_HOLES),
+# a comprehension written directly in a class body: its first iterable is evaluated in the class scope, the rest is not
+S13 = ("{g0} = [1, 2]\n{g1} = 3\n\n\nclass K:\n    {k0} = [4, 5]\n    {k1} = 6\n    d = [w * {u1} for w in {u0}]\n    e = sum(w for w in {u0} if w)\n\n    def m(self):\n        return [w for w in self.{k0}]\n\n\n"
+       "print(K.d, K.e, K().m(), {g0}, {g1})\n")
+S13_HOLES = {"g0": ["a", "b"], "g1": ["b", "c"], "k0": ["a", "b"], "k1": ["b", "c"], "u0": ["a", "b"], "u1": ["b", "c"]}
+# S2 indented with tabs
+S2T = S2.replace("        ", "\t\t").replace("    ", "\t")
+
+SCHEMAS = {"S2T": (S2T, S2_HOLES), "S13": (S13, S13_HOLES), "S12": (S12, S12_HOLES), "S11": (S11, S11_HOLES), "S10": (S10, S10_HOLES), "S9": (S9, S9_HOLES), "S8": (S8, S8_HOLES), "S6": (S6, S6_HOLES), "S7": (S7, S7_HOLES), "S1": (S1, S1_HOLES), "S2": (S2, S2_HOLES), "S3A": (S3A, S3A_HOLES), "S3B": (S3B, S3B_HOLES), "S3C": (S3C, S3C_HOLES),
            "S3D": (S3D, S3D_HOLES), "S3E": (S3E, S3E_HOLES), "S4": (S4, S4_HOLES), "S5": (S5, S5_HOLES)}
 
 
@@ -153,6 +160,12 @@ def multi_module_projects():
                                      "xv.py": "from xm import b\nimport xm\nprint(b, xm.a, xm.b)\n"}))
     out.append(("M3:module-named-like-variable", {}, {"xm.py": "xm = 'xm.xm'\nother = 'xm.other'\n", "xu.py": "import xm\nprint(xm.xm, xm.other)\n",
                                                       "xv.py": "from xm import xm as y\nfrom xm import other\nprint(y, other)\n"}))
+    # two star imports that export the same name: the later one wins
+    two = {"xm.py": "def a():\n    return 'xm.a'\n\n\nc = 'xm.c'\n", "xn.py": "def a():\n    return 'xn.a'\n\n\nd = 'xn.d'\n"}
+    for first, second in (("xm", "xn"), ("xn", "xm")):
+        files = dict(two)
+        files["xu.py"] = "from %s import *\nfrom %s import *\n\nprint(a(), c, d)\n" % (first, second)
+        out.append(("M4:two-star-imports", {"order": first + "-" + second}, files))
     # two clients with different styles in one project (occurrences must be found across all of them)
     for layout, lib in LIBS.items():
         st = STYLES[layout]
